@@ -70,7 +70,7 @@ func (c *checkCtx) selftest() int {
 					rj.Mode = "ref"
 					rj.Indices = mine
 					rj.RefPath = filepath.Join(c.Scratch, tag+".ref.json")
-					if ro := runWorker(c.Build.Worker, &rj, c.Scratch, tag+"-ref", g, 30*time.Minute); !ro.Finished {
+					if ro := runWorkerR(c.Build.Worker, &rj, c.Scratch, tag+"-ref", g, 30*time.Minute); !ro.Finished {
 						mu.Lock()
 						fail = "reference worker died: " + short(ro.Stderr, 500)
 						mu.Unlock()
@@ -78,7 +78,7 @@ func (c *checkCtx) selftest() int {
 					}
 					job.RefPath = rj.RefPath
 				}
-				wo := runWorker(c.bin(), &job, c.Scratch, tag, g, 30*time.Minute)
+				wo := runWorkerR(c.bin(), &job, c.Scratch, tag, g, 30*time.Minute)
 				mu.Lock()
 				defer mu.Unlock()
 				if !wo.Finished {
